@@ -13,7 +13,9 @@ CHECKS = {"C16": "sim.c16", "C17": "sim.c17", "C19": "sim.c19", "C06": "sim.c06"
 
 
 def _reexec_fixed_hashseed():
-    if os.environ.get("PYTHONHASHSEED") is None:
+    # C06's golden runs are forks of THIS interpreter: its hash seed is part of the golden configuration and must be 0
+    force = len(sys.argv) > 1 and sys.argv[1] == "C06" and os.environ.get("PYTHONHASHSEED") != "0"
+    if os.environ.get("PYTHONHASHSEED") is None or force:
         env = dict(os.environ)
         env["PYTHONHASHSEED"] = "0"
         env.pop("COVERAGE_PROCESS_START", None)
